@@ -43,7 +43,7 @@ inductive Err
   | protectionInvalid     -- `ProtectionInvalid`
   | decodeError           -- `DecodeError` (a `ProtectionInvalid`)
   | notProtected          -- `NotAProtectedMessage`: no OSCORE option at all
-  | valueError            -- `ValueError` (outer request code other than POST/FETCH; oversized field)
+  | valueError            -- `ValueError` (`_compress`: oversized field; since fix 51b9257 no longer reachable from `unprotect`)
   | contextUnavailable    -- `ContextUnavailable`: sender sequence numbers exhausted
   | unparsable            -- authentic plaintext that is not a CoAP message
   | assertion             -- a Python `assert` fails (ill-formed context)
@@ -207,7 +207,7 @@ def selectPiv (B : Ctx) (rid : Option ReqId) (code : Nat) (u : Unprot) : Except 
     if code = 2 ∨ code = 5 then
       .ok { piv, gen := B.recipientId, seqno := some (beToNat piv),
             rid := { kid := B.recipientId, piv, canReuse := true, style := code } }
-    else .error .valueError                           -- `CodeStyle.from_request`
+    else .error .valueError                           -- `CodeStyle.from_request` (not reachable through `recvParams`: code checked first)
 
 /-- `unprotect` up to the decryption call: option decompression, KID-context and KID checks,
 Partial IV / request identifier selection, AAD and nonce.  (`tagBytes` is `alg_aead.tag_bytes`
